@@ -40,6 +40,17 @@ theorem counters_track_frames (g : Graph) (root : Nat) (ops : List Op) (s : St)
   have hi := inv_run ops St.init s (inv_init g) h
   exact ⟨hi.ctr c hc, hi.lim c hc⟩
 
+/-- every counter returns to its entry value on every exit path: whenever the machine is back at the stack it had
+    at some earlier moment - after evaluations that finished, or that were abandoned by unwinding (an error, `exit`) -
+    each counter holds what it held then.  A counter that is left too high by an early exit is excluded by the
+    machine; `counters_balanced_in_code` checks the corresponding idiom in the C sources. -/
+theorem counters_balanced (g : Graph) (root : Nat) (ops1 ops2 : List Op) (s1 s2 : St)
+    (h1 : run g root St.init ops1 = some s1) (h2 : run g root s1 ops2 = some s2)
+    (hs : s2.stack = s1.stack) (c : Nat) (hc : 2 ≤ c) : s2.ctr c = s1.ctr c := by
+  have i1 := inv_run ops1 St.init s1 (inv_init g) h1
+  have i2 := inv_run ops2 s1 s2 i1 h2
+  rw [i2.ctr c hc, i1.ctr c hc, hs]
+
 /-- "the subgraph of plain calls is acyclic": with the certificate, no non-empty stack of plain calls returns to
     the function it started from -/
 theorem plain_calls_acyclic (n : Nat) (es : List Edge) (hO : Ordered n es) (s : List Edge) (hne : s ≠ [])
@@ -143,6 +154,17 @@ def knownResidualSiteIds : List Nat := [
 
 theorem residual_edges_known : ∀ i ∈ CallGraph.residualSiteIds, i ∈ knownResidualSiteIds := by decide +kernel
 
+/-- the structural side of `counters_balanced`: in the C sources no `return`/`goto` lies between a `depth.X++` and the
+    `depth.X--` that undoes it, in any function that holds both (flag 0 in the extracted table = an early exit that
+    leaves the counter too high for the rest of the life of the runtime) -/
+theorem counters_balanced_in_code : ∀ r ∈ CallGraph.incDecPairs, r.2.2 ≠ 0 := by decide +kernel
+
+/-- the table is not empty: the two run-time counters and the parse-time ones are in it, paired -/
+theorem counter_pairs_present :
+    (CallGraph.incDecPairs.filter fun r => r.2.2 == 1).length ≥ 5 ∧
+    (CallGraph.incDecPairs.any fun r => r.2.1 == "depth.expr" && r.2.2 == 1) = true ∧
+    (CallGraph.incDecPairs.any fun r => r.2.1 == "depth.block" && r.2.2 == 1) = true := by decide +kernel
+
 /-- (3) the limits that the guards of the code read are finite (> 0) under the CLI defaults, and the value-stack
     limit has a positive default not below its positive minimum -/
 theorem defaults_positive :
@@ -228,6 +250,24 @@ theorem within_limit_unaffected (l : Limits) (f : Family) (n : Nat)
     rw [verdict_ok_iff_peak]
     intro k; rw [peak_requests]; exact h k
   simp [outcome, this]
+
+/-- histories: a first phase that stayed within the limits and was left by `exit` d calls deep does not change what
+    the second phase is allowed to do - the run behaves like the second phase alone -/
+theorem phase_two_unaffected (l : Limits) (d n : Nat)
+    (h : ∀ k, within l k (peakOf (.exitRec d) k 0)) : outcome l (.exitRec d) n = outcome l .recur n := by
+  let P : List Req := [⟨Kind.blockParse, 1⟩, ⟨Kind.exprParse, 1⟩, ⟨Kind.exprParse, 2⟩, ⟨Kind.exprParse, 3⟩]
+  let A : List Req := [⟨Kind.blockRun, 1⟩, ⟨Kind.exprRun, 1⟩, ⟨Kind.exprRun, 2⟩, ⟨Kind.exprRun, 3⟩]
+  have e1 : ∀ m, requests (.exitRec d) m = P ++ (((A ++ recurFrom d 0) ++ A) ++ recurFrom m 0) := fun _ => rfl
+  have e2 : requests .recur n = P ++ (A ++ recurFrom n 0) := rfl
+  have h0 : verdict l (requests (.exitRec d) 0) = .ok := by
+    rw [verdict_ok_iff_peak]; intro k; rw [peak_requests]; exact h k
+  rw [e1] at h0
+  have hP := verdict_ok_left l _ _ h0
+  rw [verdict_skip l _ _ hP] at h0
+  have hAD := verdict_ok_left l _ _ (verdict_ok_left l _ _ h0)
+  have hv : verdict l (requests (.exitRec d) n) = verdict l (requests .recur n) := by
+    rw [e1, e2, verdict_skip l _ _ hP, verdict_skip l _ _ hP, List.append_assoc, verdict_skip l _ _ hAD]
+  simp only [outcome, hv, output]
 
 /-- acceptance is downward closed in the nesting depth -/
 theorem accept_downward_closed (l : Limits) (f : Family) (m n : Nat) (hmn : m ≤ n)
